@@ -196,8 +196,8 @@ def discharge(ob, ctx, budget_s=20.0):
             if st2 == "unsat":
                 backend = be2 + "(uncut)"
                 continue
-            return {"status": st2, "backend": be2 + "(uncut)", "time": total, "model": m2, "goal": g, "cut_status": st}
-        return {"status": st, "backend": be, "time": total, "model": m, "goal": g}
+            return {"status": st2, "backend": be2 + "(uncut)", "time": total, "model": m2, "goal": g, "cut_status": st, "assertions": full + ax2}
+        return {"status": st, "backend": be, "time": total, "model": m, "goal": g, "assertions": list(ob.hyps) + ax}
     return {"status": "unsat", "backend": backend, "time": total, "model": None, "goal": None}
 
 
